@@ -171,10 +171,8 @@ func match(r *Repr, t *cqlref.Type, v *cqlref.Value, got reflect.Value, path str
 			e := got.MapIndex(reflect.ValueOf(name))
 			fv := field(v, i)
 			if !e.IsValid() {
-				if fv.Null {
-					continue
-				}
-				return bad("field %q missing", name)
+				// the library injects every declared field, NULL ones as the zero value (nil)
+				return bad("field %q missing from the decoded map (want %s)", name, cqlref.Format(t.Elems[i], fv))
 			}
 			if err := match(r.Sub[i], t.Elems[i], fv, e, path+"."+name); err != nil {
 				return err
